@@ -51,7 +51,7 @@ enum Break {
     Killed,
     /// rsync leaves only manifests and CRLs in the copy and exits with status 23
     Partial,
-    /// rsync hangs; Routinator's rsync-timeout (1 s) kills it
+    /// rsync hangs; Routinator's rsync-timeout (5 s in these runs) kills it
     Timeout,
 }
 
@@ -362,7 +362,7 @@ fn wrapper_script(world: &World, r: &str, brk: &Break) -> std::path::PathBuf {
     let action = match brk {
         Break::Exit { code } => format!("exit {}", code),
         Break::Killed => "kill -9 $$".to_string(),
-        Break::Timeout => "sleep 20; exit 30".to_string(),
+        Break::Timeout => "sleep 60; exit 30".to_string(),
         Break::Partial => format!(
             "mkdir -p \"$dst\"; find \"$dst\" -type f ! -name '*.mft' ! -name '*.crl' -delete; \
              cd '{}/{}' && find . -type f \\( -name '*.mft' -o -name '*.crl' \\) | while read f; do mkdir -p \"$dst/$(dirname \"$f\")\"; cp \"$f\" \"$dst/$f\"; done; exit 23",
@@ -421,7 +421,7 @@ fn run_world(spec: &RepoSpec, inp: &Input, step: usize, brk: Option<&Break>, ids
             loop {
                 o = world.run_with(&inp.cfg, |c| {
                     c.rsync_command = w.display().to_string();
-                    if timeout { c.rsync_timeout = Some(std::time::Duration::from_secs(1)); }
+                    if timeout { c.rsync_timeout = Some(std::time::Duration::from_secs(TIMEOUT_SECS)); }
                 });
                 tries += 1;
                 // "Text file busy": another thread forked while the script was open for writing; nothing ran yet
@@ -663,7 +663,7 @@ fn gen(rng: &mut Rng, tier: &str) -> Vec<(String, Value)> {
         }
     }
     if cmd {
-        // rsync hanging until the timeout kills it (1 s each)
+        // rsync hanging until the timeout kills it (5 s each)
         for r in &repos3 { out.push(case("timeout-reject-history".into(), &w3, r, &reject, "history", Break::Timeout)); }
         if thorough { for r in &repos3 { out.push(case("timeout-accept-fresh".into(), &w3, r, &accept, "fresh", Break::Timeout)); } }
         let _ = rng.next();
@@ -745,6 +745,10 @@ fn gen(rng: &mut Rng, tier: &str) -> Vec<(String, Value)> {
     }
     out
 }
+
+/// rsync-timeout of the runs of class `timeout-*`: it applies to every module, so it must be long enough for the
+/// healthy modules' fetches even on a saturated machine.
+const TIMEOUT_SECS: u64 = 5;
 
 fn cmd_stream() -> bool { std::env::var("C41_STREAM").map(|s| s == "cmd").unwrap_or(false) }
 
